@@ -133,6 +133,12 @@ func (c *Conn) process(f *Frame) {
 	flt := c.Faults[idx]
 	switch flt.Kind {
 	case FStatus:
+		if flt.Status == StNotFound || flt.Status == StNotStored {
+			// "not found"/"not stored" are made truthful: the entry is evicted at this moment (a
+			// backend that denies holding a key and then serves it again is not a fault any
+			// memcached exhibits)
+			c.S.Evict(string(f.Key))
+		}
 		c.out = append(c.out, ErrReply(f.Op, flt.Status, f.Opaque)...)
 		if c.S.LogOn {
 			c.S.Log = append(c.S.Log, ReqLog{Conn: c.Name, Op: f.Op, Key: string(f.Key), ValLen: len(f.Val), Flags: f.Flags, Exptime: f.Exptime, Status: flt.Status})
